@@ -26,6 +26,7 @@ static uint64_t hash[64];
 static size_t max_ilen_set;
 static uint64_t limitN = UINT64_MAX;   /* total number of input frames of the stream (op `limit`) */
 static int is_cr;                /* constant-rate engine (plan export possible) */
+static size_t stale_ilen;        /* op `stale n`: the ilen passed along with in == NULL (soxr.h puts no requirement on it) */
 
 /* ---------- deterministic input signal: a function of (channel, absolute frame index) only */
 static double sig(unsigned c, uint64_t i)
@@ -329,17 +330,18 @@ int main(void)
       for (i = 1; i < nt; ++i) gscript[i - 1] = strdup(t[i]);
     }
     else if (!strcmp(t[0], "limit") && nt >= 2) limitN = strtoull(t[1], 0, 10);
+    else if (!strcmp(t[0], "stale") && nt >= 2) stale_ilen = (size_t)strtoull(t[1], 0, 10);
     else if (!strcmp(t[0], "feed") && nt >= 4) {     /* feed il ol useIdone: next block of the stream, or a flush request once it is used up */
       size_t il = (size_t)strtoull(t[1], 0, 10), ol = (size_t)strtoull(t[2], 0, 10);
       /* once end-of-input has been signalled no more input is offered (soxr.h: "no data is available nor shall be available") */
       if (pos < limitN && !S->flushing) { if (il > limitN - pos) il = (size_t)(limitN - pos); run_process(1, 0, atoi(t[3]), il, ol, t + 4, nt - 4, 0); }
-      else run_process(0, 0, 0, 0, ol, t + 4, nt - 4, 0);
+      else run_process(0, 0, 0, stale_ilen, ol, t + 4, nt - 4, 0);
     }
     else if (!strcmp(t[0], "drain") && nt >= 2) {    /* drain ol: end of input, then requests of ol frames until one returns nothing, then one more */
       size_t ol = (size_t)strtoull(t[1], 0, 10); int guard = 0, empty = 0;
       while (empty < 2 && guard++ < 2000000) {
         uint64_t before = total_out;
-        run_process(0, 0, 0, 0, ol, t + 2, nt - 2, 0);
+        run_process(0, 0, 0, stale_ilen, ol, t + 2, nt - 2, 0);
         if (total_out == before || S->error) ++empty;
       }
     }
